@@ -76,9 +76,13 @@ var c04Mutations = []mutation{
 		m.Clock = entry.NewLamportClock(id, m.Clock.Time)
 	}},
 	{"next.drop", func(m *entry.Entry, x *c04Ctx, r *rand.Rand, v int) { m.Next = []cid.Cid{} }},
-	{"next.add", func(m *entry.Entry, x *c04Ctx, r *rand.Rand, v int) { m.Next = append(append([]cid.Cid{}, m.Next...), x.other) }},
+	{"next.add", func(m *entry.Entry, x *c04Ctx, r *rand.Rand, v int) {
+		m.Next = append(append([]cid.Cid{}, m.Next...), x.other)
+	}},
 	{"next.replace", func(m *entry.Entry, x *c04Ctx, r *rand.Rand, v int) { m.Next = []cid.Cid{x.other} }},
-	{"refs.add", func(m *entry.Entry, x *c04Ctx, r *rand.Rand, v int) { m.Refs = append(append([]cid.Cid{}, m.Refs...), x.other) }},
+	{"refs.add", func(m *entry.Entry, x *c04Ctx, r *rand.Rand, v int) {
+		m.Refs = append(append([]cid.Cid{}, m.Refs...), x.other)
+	}},
 	{"v", func(m *entry.Entry, x *c04Ctx, r *rand.Rand, v int) {
 		if v == 0 {
 			m.V = 1
